@@ -56,6 +56,8 @@ CLS2TY = {"state": "TState", "gate": "TGate", "povm": "TPovm", "mproc": "TMProce
 # source expressions (exact unparsed text) replaced by a parameter of the generated section
 ABSTRACT = {
     "np.sqrt(elem2.composite_system.dim)": ("(cs_sqrt_dim (st_sys elem2))", "S"),
+    "np.sqrt(self.dim)": ("(cs_sqrt_dim (mq_sys self))", "S"),
+    "Settings.get_atol()": ("s_atol", "S"),                  # MProcess.dim = composite_system.dim
     "elem1.composite_system.is_orthonormal_hermitian_0thprop_identity": ("(cs_ortho (mq_sys elem1))", "B"),
     "convert_vec(I_vec_cb, elem2.composite_system.comp_basis(), elem2.composite_system.basis())": ("(cs_ivec (st_sys elem2))", "V"),
     "np.eye(elem1.composite_system.dim, dtype=np.float64).flatten()": ("tt", "unit"),
@@ -72,7 +74,12 @@ FUNCS = [  # python name, coq name, parameter types, return type
     ("_compose_qoperations_Povm_StateEnsemble", "gen_Povm_StateEnsemble", [("elem1", "povm"), ("elem2", "ens")], "res"),
     ("_compose_qoperations", "gen_compose2", [("elem1", "obj"), ("elem2", "obj")], "res"),
     ("compose_qoperations", "gen_compose_qoperations", [("elements", "L:arg")], "obj"),
+    ("to_povm", "gen_to_povm", [("self", "mproc")], "res", ("quara/objects/mprocess.py", "MProcess")),      # MProcess.to_povm
+    ("truncate_and_normalize", "gen_truncate_and_normalize", [("matrix", "L:S"), ("eps", "O:S")], "L:S", ("quara/utils/matrix_util.py", None)),   # on a 1-d array
 ]
+# keyword arguments of a constructor call that only copy the same-named configuration attribute of self (no influence on the translated slice)
+PASS_THROUGH = {"is_estimation_object", "on_para_eq_constraint", "on_algo_eq_constraint", "on_algo_ineq_constraint", "mode_proj_order", "eps_proj_physical",
+                "eps_truncate_imaginary_part"}
 CALL_AS = {("compose_qoperations", "_compose_qoperations"): "k_compose"}   # the fold step = _compose_qoperations + the constructors it calls
 DEFAULTS = {("_compose_qoperations_MProcess_State_for_States", 2): "s_one"}
 TRANSLATED = {f[0]: f for f in FUNCS}
@@ -192,7 +199,7 @@ def terminates(stmts):
 class Fn:
     def __init__(self, fdef, spec):
         self.f = fdef
-        self.pyname, self.coq, self.params, self.ret = spec
+        self.pyname, self.coq, self.params, self.ret = spec[:4]
         self.n = 0
         bound = {n.id for n in ast.walk(fdef) if isinstance(n, ast.Name) and isinstance(n.ctx, ast.Store)} | {a.arg for a in fdef.args.args}
         for n in ast.walk(fdef):                # Python VARIABLES whose name would capture a Coq identifier used by the generated text
@@ -341,6 +348,8 @@ class Fn:
                     return "(s_mul %s %s)" % (a, b), "S", pre
                 if (ta, tb) == ("N", "N"):
                     return "(Nat.mul %s %s)" % (a, b), "N", pre
+                if (ta, tb) == ("S", "V"):
+                    return "(v_scale %s %s)" % (a, b), "V", pre
                 if (ta, tb) == ("S", "L:S"):
                     return "(map (s_mul %s) %s)" % (a, b), "L:S", pre
                 if ta == "L:S" and tb == "N" and isinstance(e.left, ast.List) and len(e.left.elts) == 1:
@@ -367,6 +376,8 @@ class Fn:
             b, tb, pre = self.expr(e.value, env)
             if tb == "V" and isinstance(e.slice, ast.Constant) and e.slice.value == 0:
                 return "(v_first %s)" % b, "S", pre
+            if tb == "M" and isinstance(e.slice, ast.Constant) and e.slice.value == 0:
+                return "(m_row0 %s)" % b, "V", pre
             if tb == "dist":          # MultinomialDistribution.__getitem__(int): the model of C16 (plain sequence access, IndexError outside)
                 i, ti, pi = self.expr(e.slice, env)
                 if ti != "N":
@@ -453,6 +464,15 @@ class Fn:
         if isinstance(e, ast.Tuple) and len(e.elts) == 2:
             a, ta, pa = self.expr(e.elts[0], env); b, tb, pb = self.expr(e.elts[1], env)
             return "(%s, %s)" % (a, b), "T:%s,%s" % (ta, tb), pa + pb
+        if isinstance(e, ast.IfExp) and isinstance(e.test, ast.Compare) and isinstance(e.test.ops[0], ast.Is) and isinstance(e.test.left, ast.Name) \
+                and ast.unparse(e.test.comparators[0]) == "None" and isinstance(e.orelse, ast.Name) and e.orelse.id == e.test.left.id \
+                and env.get(e.test.left.id, "").startswith("O:"):
+            # X if v is None else v   (an optional argument with a default computed at call time)
+            v = e.test.left.id
+            a, ta, pa = self.expr(e.body, env)
+            if pa or ta != env[v][2:]:
+                fail(e, "default of the optional argument")
+            return "(match %s with None => %s | Some v_ => v_ end)" % (v, a), ta, []
         if isinstance(e, ast.Call):
             return self.call(e, env)
         fail(e, "expression")
@@ -487,6 +507,14 @@ class Fn:
             if ta != "L:S" or tb != "L:S":
                 fail(e, "hstack of %s, %s" % (ta, tb))
             return "(%s ++ %s)" % (a, b), "L:S", pa + pb
+        if f == "np.where" and len(e.args) == 3 and not kw and isinstance(e.args[0], ast.Compare) and len(e.args[0].ops) == 1 \
+                and isinstance(e.args[0].ops[0], (ast.Lt, ast.LtE)) and ast.unparse(e.args[0].left) == ast.unparse(e.args[2]):
+            # np.where(m < eps, 0, m) on a 1-d array: elementwise
+            m_, tm, pm = self.expr(e.args[2], env); t_, tt, pt = self.expr(e.args[0].comparators[0], env); z_ = self.scal(e.args[1], env)
+            if tm != "L:S" or tt != "S" or pm or pt:
+                fail(e, "np.where operands %s %s" % (tm, tt))
+            cmp_ = "s_ltb" if isinstance(e.args[0].ops[0], ast.Lt) else "s_leb"
+            return "(map (fun p_ => if %s p_ %s then %s else p_) %s)" % (cmp_, t_, z_, m_), "L:S", []
         if f == "np.sum" and len(e.args) == 1:
             a, ta, pa = self.expr(e.args[0], env)
             if ta != "L:S":
@@ -566,8 +594,13 @@ class Fn:
                 return kw[name]
             return None
         if f in ("Gate", "State", "Povm"):
-            sys_, pay, ph = arg(0, "c_sys"), arg(1, None), kw.get("is_physicality_required")
-            if sys_ is None or pay is None or ph is None or set(kw) - {"is_physicality_required"}:
+            for k in list(kw):
+                if k in PASS_THROUGH:
+                    if ast.unparse(kw[k]) != "self." + k:
+                        fail(e, "pass-through keyword %s is not self.%s" % (k, k))
+                    del kw[k]
+            sys_, pay, ph = arg(0, "c_sys"), arg(1, {"Povm": "vecs", "Gate": "hs", "State": "vec"}[f]), kw.get("is_physicality_required")
+            if sys_ is None or pay is None or ph is None or set(kw) - {"is_physicality_required", "c_sys", "vecs", "hs", "vec"}:
                 fail(e, "constructor arguments of " + f)
             s, ts, ps_ = self.expr(sys_, env); p, tp, pp = self.expr(pay, env); h, th, phh = self.expr(ph, env)
             want = {"Gate": "M", "State": "V", "Povm": "L:V"}[f]
@@ -654,7 +687,7 @@ class Fn:
                 tc = "S" if env.get(t.id) == "S" else "N"; c = "s_zero" if tc == "S" else c
             if tc == "L:N0":
                 tc = "L:S"; c = c.replace("0%nat", "s_zero")
-            if t.id in env and env[t.id] != tc and not (env[t.id] == "L:S" and tc == "L:S"):
+            if t.id in env and env[t.id] != tc and not (env[t.id] == "O:" + tc):
                 fail(s, "variable %s changes type %s -> %s" % (t.id, env[t.id], tc))
             env2 = dict(env); env2[t.id] = tc
             val = "(Some %s)" % c if t.id in self.maybe else c
@@ -845,6 +878,10 @@ class Fn:
             fin = lambda envb: "(POk %s)" % self.tup(cs)      # noqa: E731
             a = self.block(s.body, e1, fin, frozenset(cs)); b = self.block(s.orelse, e2, fin, frozenset(cs))
             return "(pbind (match %s with inr %s => %s | inl %s => %s end) (fun %s => %s))" % (x, x, a, x, b, self.pat(cs), self.block(tail, env, rest, lo))
+        if isinstance(s.test, ast.Compare) and test.endswith(".ndim == 1") and isinstance(s.test.left, ast.Attribute) and isinstance(s.test.left.value, ast.Name) \
+                and env.get(s.test.left.value.id) == "L:S":
+            # the parameter is typed as a 1-d array, so `x.ndim == 1` holds and the 2-d branch is not part of the translated slice
+            return self.block(s.body + tail, env, rest, lo)
         if test in OPAQUE_IF:
             if not terminates(s.body):
                 fail(s, "an opaque branch must end in return on every path")
@@ -910,7 +947,7 @@ From Coq Require Import List Bool ZArith String Arith.
 From QV.Model Require Import C06_PySym.
 Import ListNotations.
 '''
-OPNAMES = ["m_matmul", "m_matvec", "m_vecmat", "m_transpose", "v_conj", "v_real", "v_first", "v_div", "v_zero", "v_vdot", "s_zero", "s_one", "s_mul", "s_div",
+OPNAMES = ["s_atol", "m_row0", "v_scale", "m_matmul", "m_matvec", "m_vecmat", "m_transpose", "v_conj", "v_real", "v_first", "v_div", "v_zero", "v_vdot", "s_zero", "s_one", "s_mul", "s_div",
            "s_max", "s_leb", "s_ltb", "s_eq0", "s_sum", "cs_sqrt_dim", "cs_ortho", "cs_ivec", "k_truncate_and_normalize", "k_compose"]
 
 
@@ -919,6 +956,15 @@ def main():
     src = open(os.path.join(repo, "quara", "objects", "operators.py")).read()
     tree = ast.parse(src)
     defs = {n.name: n for n in tree.body if isinstance(n, ast.FunctionDef)}
+    for spec in FUNCS:
+        if len(spec) > 4:            # a method of a class in another file
+            t2 = ast.parse(open(os.path.join(repo, spec[4][0])).read())
+            cls = [n for n in t2.body if isinstance(n, ast.ClassDef) and n.name == spec[4][1]]
+            ms = [m for c_ in cls for m in c_.body if isinstance(m, ast.FunctionDef) and m.name == spec[0]]
+            if spec[4][1] is None:
+                ms = [m for m in t2.body if isinstance(m, ast.FunctionDef) and m.name == spec[0]]
+            if len(ms) == 1:
+                defs[spec[0]] = ms[0]
     parts = [HEADER]
     try:
         for spec in FUNCS:
